@@ -16,6 +16,7 @@ import (
 	"io"
 	"log"
 	"os"
+	"runtime"
 	"runtime/debug"
 	"runtime/pprof"
 	"strconv"
@@ -145,6 +146,15 @@ func main() {
 				}()
 			}
 			u.R.WallS = time.Since(t0).Seconds()
+			if mp := os.Getenv("VERIF_MEMPROF"); mp != "" { // debugging aid: heap profile after every unit
+				if f, err := os.Create(fmt.Sprintf("%s.%d.%d", mp, os.Getpid(), idx)); err == nil {
+					pprof.Lookup("heap").WriteTo(f, 0)
+					var ms runtime.MemStats
+					runtime.ReadMemStats(&ms)
+					fmt.Fprintf(f, "\n# HeapInuse=%d HeapSys=%d Sys=%d StackInuse=%d NumGC=%d goroutines=%d\n", ms.HeapInuse, ms.HeapSys, ms.Sys, ms.StackInuse, ms.NumGC, runtime.NumGoroutine())
+					f.Close()
+				}
+			}
 			b, _ := json.Marshal(u.R)
 			out.Write(b)
 			out.WriteByte('\n')
